@@ -68,7 +68,15 @@ impl_into_parallel_source_range!(u8);
 impl_into_parallel_source_range!(u16);
 impl_into_parallel_source_range!(u32);
 
-impl_into_parallel_source_range!(usize);
+impl IntoParallelSource for Range<usize> {
+    type Iter = Range<usize>;
+
+    fn generate_iterator(self, index: CoordUInt, peers: CoordUInt) -> Self::Iter {
+        // usize does not fit in i64: reuse the u64 implementation
+        let range = (self.start as u64..self.end as u64).generate_iterator(index, peers);
+        range.start as usize..range.end as usize
+    }
+}
 
 impl_into_parallel_source_range!(i8);
 impl_into_parallel_source_range!(i16);
